@@ -912,6 +912,125 @@ SUMMARY.ghost_state = ("__drawn", "__axes")
 TASKS.append(FunctionTask(SUMMARY, module_env=dict(_P_ENV, plt=ModV("plt", {"figure": FuncV(_m_figure, "plt.figure")}), **{h: _helper_model(h) for h in _SUM_FUNCS}), registry=_AX_SUM,
                           label=_QP + "plot_azimuthal_summary[all parts]", clauses=["the summary figure draws every panel for the caller's object and the distribution option that belongs to it"]))
 
+# ---------------------------------------------------------------------------------------------------------------------
+# plot_voronoi (given axes): cell i is filled with the outline of tessellation cell i and the colour of sensor i's own value (the colour scale spans the smallest
+# to the largest value); the sensors are drawn at their coordinates; the boundary is drawn closed (its first point repeated); the inputs are not written.
+NCELL = z3.Int("n_cells")
+FNV = z3.Const("valid_mean_fn", ARp)
+CELLX = z3.Function("cell_outline", I, I, I, R)        # (cell, vertex, 0 x / 1 y)
+CELLN = z3.Function("cell_n_vertices", I, I)
+COLOUR = z3.Function("colour_of", R, R, R, I)           # (vmin, vmax, value) -> colour id
+SX = z3.Const("sensor_coordinates", _A2c(R))
+BXY2 = z3.Const("boundary_rows", _A2c(R))
+NSENS, NBND = z3.Ints("n_sensors n_boundary_rows")
+
+
+def _vor_inputs(ex, st):
+    from pyvc.core import SeqV, L2 as _L2
+    st.env["valid_sensor_coordinates"] = ex.alloc_arr(st, (NSENS, z3.IntVal(2)), SX, "real", "param:valid_sensor_coordinates", tag="sensors")
+    st.env["valid_mean_fn"] = ex.alloc_arr(st, (NCELL,), FNV, "real", "param:valid_mean_fn", tag="fn")
+
+    def cell(ex_, st_, i):
+        v, c = z3.Ints("v!cell c!cell")
+        return ex_.alloc_arr(st_, (CELLN(i), z3.IntVal(2)), _L2(v, c, CELLX(i, v, c)), "real", "param:tesselation_vertices", tag="cell")
+    st.env["tesselation_vertices"] = SeqV(NCELL, cell, owner="param:tesselation_vertices", name="cells")
+    st.env["boundary"] = ex.alloc_arr(st, (NBND, z3.IntVal(2)), BXY2, "real", "param:boundary", tag="boundary")
+    st.env["ax"] = sym_obj(ex, st, "Axes", {}, owner="param:ax")
+    st.env["fig_kwargs"] = NONE
+    st.env["__fx"] = new_symlist(ex, st, None, elem_sort=z3.ArraySort(I, R), owner="fresh", name="fill_x")
+    st.env["__fy"], st.env["__fc"], st.env["__fn"] = z3.K(I, z3.K(I, z3.RealVal(0))), z3.K(I, z3.IntVal(-1)), z3.K(I, z3.IntVal(0))
+    st.env["__drawn"] = Tup(())
+    k = z3.Int("k!cn")
+    return [NCELL >= 1, NSENS >= 0, NBND >= 1, z3.ForAll([k], CELLN(k) >= 0, patterns=[CELLN(k)])]
+
+
+def _m_fill(ex, st, args, kw, node):
+    x, y = ex.arr(st, args[1]), ex.arr(st, args[2])
+    pos = st.heap[st.env["__fx"].sid].length
+    st.env["__fy"] = z3.Store(st.env["__fy"], pos, y.data)
+    st.env["__fn"] = z3.Store(st.env["__fn"], pos, x.shape[0])
+    col = kw.get("facecolor")
+    st.env["__fc"] = z3.Store(st.env["__fc"], pos, lit(col) if z3.is_expr(lit(col)) and z3.is_int(lit(col)) else z3.IntVal(-2))
+    _o20.symlist_append(ex, st, st.env["__fx"], args[1], node)
+    return NONE
+
+
+_VMIN, _VMAX = z3.Reals("fn_min fn_max")
+
+
+def _m_normalize(ex, st, args, kw, node):
+    lo, hi = npm.real(kw["vmin"]), npm.real(kw["vmax"])
+    return FuncV(lambda e2, s2, a2, k2, n2: ModV("normed", {"__norm": (lo, hi, npm.real(a2[0]))}), "norm")
+
+
+def _m_cmap(ex, st, args, kw, node):
+    lo, hi, v = args[0].attrs["__norm"]
+    return ModV("rgba", {"__getitem__": FuncV(lambda e2, s2, a2, k2, n2: ModV("rgb", {"__colour": COLOUR(lo, hi, v)}), "rgba[...]")})
+
+
+def _voronoi_ok(ex, st, a, k, n_):
+    fx = st.heap[st.env["__fx"].sid]
+    i, v = z3.Ints("i!vo v!vo")
+    calls = [c for c in st.env["__drawn"] if c[0] == "plot"]
+    if len(calls) != 2 or not all(isinstance(x, ARef) for c in calls for x in c[1][:2]):
+        return z3.BoolVal(False)
+    (sx, sy), (bx, by) = [tuple(ex.arr(st, x) for x in c[1][:2]) for c in calls]
+    vmin, vmax = st.env["__minmax"]
+    cells = z3.ForAll([i], z3.Implies(z3.And(i >= 0, i < NCELL), z3.And(
+        z3.Select(st.env["__fn"], i) == CELLN(i), z3.Select(st.env["__fc"], i) == COLOUR(vmin, vmax, z3.Select(FNV, i)),
+        z3.ForAll([v], z3.Implies(z3.And(v >= 0, v < CELLN(i)), z3.And(z3.Select(z3.Select(fx.arr, i), v) == CELLX(i, v, 0), z3.Select(z3.Select(st.env["__fy"], i), v) == CELLX(i, v, 1)))))))
+    sensors = z3.And(sx.shape[0] == NSENS, z3.ForAll([v], z3.Implies(z3.And(v >= 0, v < NSENS), z3.And(ex.sel1(sx, v) == z3.Select(z3.Select(SX, v), 0), ex.sel1(sy, v) == z3.Select(z3.Select(SX, v), 1)))))
+    closed = z3.And(bx.shape[0] == NBND + 1, z3.ForAll([v], z3.Implies(z3.And(v >= 0, v <= NBND), z3.And(
+        ex.sel1(bx, v) == z3.Select(z3.Select(BXY2, z3.If(v == NBND, 0, v)), 0), ex.sel1(by, v) == z3.Select(z3.Select(BXY2, z3.If(v == NBND, 0, v)), 1)))))
+    return z3.And(fx.length == NCELL, cells, sensors, closed)
+
+
+def _m_minmax(which):
+    def f(ex, st, args, kw, node):
+        r = npm.NP.attrs[which].fn(ex, st, args, kw, node)
+        mm = list(st.env.get("__minmax", (None, None)))
+        mm[0 if which == "min" else 1] = r
+        st.env["__minmax"] = tuple(mm)
+        return r
+    return FuncV(f, "np." + which)
+
+
+_VOR_REG = {"Axes.fill": FuncV(_m_fill, "fill")}
+for _m in ("plot", "set_xlabel", "set_ylabel", "legend"):
+    _VOR_REG[f"Axes.{_m}"] = _m_ax_record(_m)
+_VOR_ENV = dict(_P_ENV, np=ModV("np", dict(npm.NP.attrs, vstack=FuncV(lambda ex, st, a, k, n_: _m_vstack2(ex, st, a, k, n_), "np.vstack"), min=_m_minmax("min"), max=_m_minmax("max"))),
+                make_axes_locatable=FuncV(lambda ex, st, a, k, n_: OpaqueV("divider"), "make_axes_locatable"),
+                cm=ModV("cm", {"colors": ModV("colors", {"Normalize": FuncV(_m_normalize, "Normalize")}), "autumn": FuncV(_m_cmap, "cm.autumn")}),
+                mpl=ModV("mpl", {"colorbar": OpaqueV("colorbar"), "colors": ModV("colors", {"rgb2hex": FuncV(lambda ex, st, a, k, n_: a[0].attrs["__colour"], "rgb2hex")})}), plt=OpaqueV("plt"))
+
+
+def _m_vstack2(ex, st, args, kw, node):
+    """np.vstack((table, row)): the table with the row appended (2-D, 1-D)"""
+    parts = args[0]
+    a, b_ = ex.arr(st, parts[0]), ex.arr(st, parts[1])
+    if a.rank != 2 or b_.rank != 1:
+        raise Undecided("np.vstack of something other than (table, row)")
+    r, c = z3.Ints("r!v2 c!v2")
+    from pyvc.core import L2 as _L2
+    return ex.alloc_arr(st, (a.shape[0] + 1, a.shape[1]), _L2(r, c, z3.If(r < a.shape[0], ex.sel2(a, r, c), ex.sel1(b_, c))), "real", "fresh", tag="vstack")
+
+
+VORONOI = Contract(qual=_QP + "plot_voronoi", params=["valid_sensor_coordinates", "valid_mean_fn", "tesselation_vertices", "boundary", "ax", "fig_kwargs"],
+                   ghost={"voronoi_ok": FuncV(_voronoi_ok, "voronoi_ok"), "n_fills": FuncV(lambda ex, st, a, k, n_: st.heap[st.env["__fx"].sid].length, "n_fills"), "NCELL": NCELL,
+                          "CELLX": CELLX, "CELLN": CELLN, "FN": lambda i: z3.Select(FNV, i),
+                          "FILLX": FuncV(lambda ex, st, a, k, n_: z3.Select(z3.Select(st.heap[st.env["__fx"].sid].arr, lit(a[0])), lit(a[1])), "FILLX"),
+                          "FILLY": FuncV(lambda ex, st, a, k, n_: z3.Select(z3.Select(st.env["__fy"], lit(a[0])), lit(a[1])), "FILLY"),
+                          "FILLN": FuncV(lambda ex, st, a, k, n_: z3.Select(st.env["__fn"], lit(a[0])), "FILLN"),
+                          "FILLC": FuncV(lambda ex, st, a, k, n_: z3.Select(st.env["__fc"], lit(a[0])), "FILLC"),
+                          "COL": FuncV(lambda ex, st, a, k, n_: COLOUR(st.env["__minmax"][0], st.env["__minmax"][1], lit(a[0])), "COL")},
+                   make_inputs=_vor_inputs, ensures=["voronoi_ok()", "result is None"], modifies=["param:ax"],
+                   loops={0: ["n_fills() == _k0", "forall(i, 0, _k0, FILLN(i) == CELLN(i) and FILLC(i) == COL(FN(i)) and forall(v, 0, CELLN(i), FILLX(i, v) == CELLX(i, v, 0) and FILLY(i, v) == CELLX(i, v, 1)))"]},
+                   notes="one filled polygon per tessellation cell, in order: the cell's own outline, coloured by the value of the sensor with the same index on a scale from the smallest "
+                         "to the largest value; sensors at their coordinates; the boundary closed by repeating its first point")
+VORONOI.ghost_state = ("__fx", "__fy", "__fc", "__fn")
+TASKS.append(FunctionTask(VORONOI, module_env=_VOR_ENV, registry=_VOR_REG, label=_QP + "plot_voronoi[given axes]",
+                          clauses=["the spatial map fills every cell with its own outline and its own sensor's value"]))
+
 META = dict(
     level="other",
     explanation="frame obligations: the 14 plotting / summary functions write nothing reachable from the HVSR object, the recordings or their keyword-argument "
